@@ -7,6 +7,8 @@ explicit list of every monotone coupling of the n2 x n1 lattice (13 for 3x3, 63
 for 4x4), each costed with the harness's own point distances.
 """
 import itertools
+
+import numpy as np
 import math
 
 from mc import alpha
@@ -34,6 +36,7 @@ INF = float("inf")
 PS = [1, 2, INF]
 
 OBLIGATIONS = {
+    "exponent_as_numpy_scalar": "p = 1 and p = 2 were also passed as numpy.int64 and numpy.float64",
     "rematch_of_a_matching": "a returned matching (track 1 with its match features) was matched again as first track",
     "tie_u_eq_l_lt_ul": "a DP cell with up == left < diagonal was reached (the tie named in DESIGN)",
     "tie_other": "a DP cell where the diagonal ties with one neighbour below the other",
@@ -238,12 +241,15 @@ def read_coupling(m, n1, n2):
     return links
 
 
-def check_one(site, mode, t1, t2, X1, X2, p, dim, case, ctx, tie, keep=None):
+def check_one(site, mode, t1, t2, X1, X2, p, dim, case, ctx, tie, keep=None, pconv=None):
     """match(t1, t2) in one mode: score optimal, coupling valid, coupling realises the score.  -> score or None
     (keep: a list that receives the returned matching when everything held)"""
     n1, n2 = len(X1), len(X2)
     # FRECHET takes no p: it is called with the default p = 1 and must still accumulate with max
-    st, m = guard(CMP.match, t1, t2, mode, 1 if mode == CMP.MODE_MATCHING_FRECHET else p, dim, False, False)
+    p_arg = 1 if mode == CMP.MODE_MATCHING_FRECHET else p
+    if pconv is not None:
+        p_arg = pconv(p_arg)            # the same exponent handed over as another numeric type
+    st, m = guard(CMP.match, t1, t2, mode, p_arg, dim, False, False)
     if st != "ok":
         ctx.violation("%s/%s" % (site, "does-not-return" if st == "hang" else "raises"), case, m)
         return None
@@ -328,6 +334,13 @@ def check_pair(variant, A, B, p, dim, ctx):
                           make_track(variant, P2), X1, X2, p, dim, c2, ctx, tie)
                 ctx.count("matchings_executed")
                 ctx.oblige("rematch_of_a_matching")
+            if order == "AB" and mname in ("dtw", "fdtw") and p != INF:
+                # the exponent as a numpy integer and as a numpy float (what np.arange / an array element hands over)
+                for pname, pconv in (("numpy.int64", np.int64), ("numpy.float64", np.float64)):
+                    check_one(SITE[mname] + "/p-as-" + pname, MODES[mname], make_track(variant, P1), make_track(variant, P2),
+                              X1, X2, p, dim, dict(c, ptype=pname), ctx, tie, pconv=pconv)
+                    ctx.count("matchings_executed")
+                ctx.oblige("exponent_as_numpy_scalar")
         if p == INF:
             ctx.oblige("frechet")
             t1, t2 = make_track(variant, P1), make_track(variant, P2)
